@@ -220,6 +220,12 @@ func (r *ConnRun) bind(run *Run, e *Ev) {
 				}
 			}
 		}
+		if e.Ev == "c.ctx.ret" && call != nil {
+			// still owned by the caller at this point: the arguments identify the call
+			if a, ok := call.Args.(*Args); ok && a != nil {
+				e.C = a.ID
+			}
+		}
 		if e.Ev == "c.dispatch" {
 			if isNilCall(e.sub) {
 				e.C = 0
@@ -742,6 +748,10 @@ func (r *ConnRun) finalize(hangBound time.Duration) (hung []int) {
 		fin, finV := first, firstV
 		if cs.kind == "call" && cs.call != nil && n > 0 {
 			fin, finV = classify(cs.call.Error, cs.reply)
+			if first == "srverr" && fin != "srverr" && cs.call.Error != nil && strings.HasPrefix(fin, "other:") {
+				// same error object, text no longer what the server sent
+				fin, finV = "srverr", -1
+			}
 		}
 		digestOK := 1
 		if fin == "ok" && cs.kind != "ping" {
@@ -766,6 +776,36 @@ func (r *ConnRun) trace() []*Ev {
 	evs := r.snapshot()
 	evs = foldSignals(evs)
 	evs = foldSweep(evs)
+	// look-ahead annotations (what the trace itself tells about choices the model leaves open):
+	//  v.dispatch.A = number of handler executions this request got in this run
+	//  c.dispatch.S = 1 if the error completion of this response ran on the dispatching goroutine
+	begins := map[int]int{}
+	errGid := map[int]uint64{}
+	for _, e := range evs {
+		if e.Ev == "h.begin" {
+			begins[e.C]++
+		}
+		if e.Ev == "c.errdone" {
+			errGid[e.Seq] = e.gid
+		}
+	}
+	r.Run.mu.Lock()
+	for _, e := range evs {
+		switch e.Ev {
+		case "v.dispatch":
+			e.A = 0
+			if id, ok := r.Run.idBySeq[e.Seq]; ok {
+				e.A = begins[id]
+				e.C = id
+			}
+		case "c.dispatch":
+			e.S = 0
+			if g, ok := errGid[e.Seq]; ok && g == e.gid && e.B%2 == 1 {
+				e.S = 1
+			}
+		}
+	}
+	r.Run.mu.Unlock()
 	var out []*Ev
 	for _, e := range evs {
 		switch e.Ev {
